@@ -135,6 +135,7 @@ def gen_history(rnd: random.Random, nsteps: int, profile: str = 'mixed', big: bo
     src = {'hash_type': rnd.choice(['sha1', 'sha256']), 'pack_size_target': rnd.choice([40, 10 ** 9])}
     pool_seed = rnd.randrange(1 << 30)
     pool = make_pool(pool_seed, big)
+    lowered = rnd.choice([None, None, (2, 5), (3, 7)])
     n = len(pool)
     weights = {
         'mixed': dict(add=3, adds=2, topack=4, topack_stream=1, pack=3, clean=2, repack=2, delete=2, loosen=1, imp=2, reopen=1, reinit=1),
@@ -174,7 +175,7 @@ def gen_history(rnd: random.Random, nsteps: int, profile: str = 'mixed', big: bo
                 ops.append({'op': 'delete', 'idx': [], 'all_nonempty': True})
                 ops.append({'op': 'repack', 'mode': rnd.choice(MODES)})
             else:
-                ops.append({'op': 'delete', 'idx': [rnd.randrange(n) for _ in range(rnd.randint(1, 4))]})
+                ops.append({'op': 'delete', 'idx': [rnd.randrange(n) for _ in range(rnd.randint(1, 9 if lowered else 4))]})
         elif k == 'loosen':
             ops.append({'op': 'loosen', 'i': rnd.randrange(n)})
         elif k == 'imp':
@@ -198,7 +199,10 @@ def gen_history(rnd: random.Random, nsteps: int, profile: str = 'mixed', big: bo
             ops.append({'op': 'plant_dup', 'i': rnd.randrange(n), 'good': rnd.random() < 0.5})
         else:
             ops.append({'op': k})
-    return {'cfg': cfg, 'src': src, 'pool_seed': pool_seed, 'big': big, 'ops': ops, 'profile': profile}
+    case = {'cfg': cfg, 'src': src, 'pool_seed': pool_seed, 'big': big, 'ops': ops, 'profile': profile}
+    if lowered:
+        case['lowered'] = list(lowered)
+    return case
 
 
 class ShortReader:
@@ -261,6 +265,12 @@ class Runner:
         self.repacked = False
         self.soft = []
         self.stats = {'ops': {}, 'forms': {'loose': 0, 'packed': 0, 'packedz': 0}, 'import_branches': set()}
+        # lowered internal thresholds (batch size of SQL IN lists / switch to the full sorted scan): requests of a handful of keys then
+        # exercise every chunk boundary of the bulk paths (runs in this forked process only; restored in close())
+        self._saved_thresholds = None
+        if case.get('lowered'):
+            self._saved_thresholds = (Container._IN_SQL_MAX_LENGTH, Container._MAX_CHUNK_ITERATE_LENGTH)
+            Container._IN_SQL_MAX_LENGTH, Container._MAX_CHUNK_ITERATE_LENGTH = case['lowered']
 
     def close(self):
         for h in [self.c, self.src] + self.extra:
@@ -268,6 +278,8 @@ class Runner:
                 h.close()
             except Exception:
                 pass
+        if self._saved_thresholds:
+            self.Container._IN_SQL_MAX_LENGTH, self.Container._MAX_CHUNK_ITERATE_LENGTH = self._saved_thresholds
 
     # ---- individual operations
     def key(self, i):
